@@ -19,7 +19,8 @@ def nodeShape (urlOk : List Nat → Bool) : Term (List Nat) → Prop
     never produce them.) -/
 def litOK (urlOk : List Nat → Bool) (dt : List Nat) (lang : Option (List Nat)) : Prop :=
   (dt = xsdString ∨ dt = rdfLangString ∨ urlOk dt = true) ∧
-  (dt = rdfLangString ↔ ∃ t, lang = some t ∧ t ≠ [])
+  (dt = rdfLangString ↔ ∃ t, lang = some t ∧ t ≠ []) ∧
+  dt ≠ rdfDirLangString   -- the model has no directional tags, so a dirLangString literal could never be well-formed
 
 def objectShape (urlOk : List Nat → Bool) : Term (List Nat) → Prop
   | .lit _ dt lang => litOK urlOk dt lang
